@@ -70,6 +70,20 @@ where
     }
 
     fn write_statistics(&mut self) -> Result<(), Error> {
+        // The standard formatting machinery supports at most `u16::MAX` digits of precision, and
+        // panics beyond that
+        if let Some(s) = self
+            .statistics
+            .iter()
+            .find(|s| s.precision > usize::from(u16::MAX))
+        {
+            return Err(anyhow!(
+                "precision {} exceeds maximum {}",
+                s.precision,
+                u16::MAX
+            ));
+        }
+
         let statistics = self
             .statistics
             .iter()
